@@ -28,6 +28,8 @@ class Unit:
     def run_shard(self, shard, timeout_ms=None):
         t0 = time.time()
         try:
+            from . import core
+            core.reset_fresh()
             eng, axioms = self.build()
             obs = eng.run()
         except Unsupported as e:
@@ -38,7 +40,8 @@ class Unit:
             return {'undecided': 'contract evaluation error (renamed local / changed shape?): ' + ''.join(traceback.format_exception_only(type(e), e)).strip()[:300],
                     'trace': traceback.format_exc()[-1500:], 'agg': {}, 'paths': 0, 'symexec_s': time.time() - t0}
         t1 = time.time()
-        agg = solve.discharge(obs, axioms, timeout_ms or self.timeout_ms, shard=shard if self.shards > 1 else None)
+        from .core import TIME_AXIOMS
+        agg = solve.discharge(obs, list(axioms) + TIME_AXIOMS, timeout_ms or self.timeout_ms, shard=shard if self.shards > 1 else None)
         return {'agg': agg, 'paths': len(obs), 'symexec_s': t1 - t0, 'solve_s': time.time() - t1, 'sha': eng.src.sha,
                 'sample': _sample(obs)}
 
